@@ -35,8 +35,9 @@ struct Sem : pika::counting_semaphore<>
 
 struct Op
 {
-    char k;
+    char k;    // as in c08_lockstep.cpp; Z0 = sl.signal_all(), M<md>:<lo> = sl.set_max_difference(md, lo)
     int n;
+    int lo = 0;
 };
 
 static int abs_site(int site)
@@ -68,7 +69,7 @@ int main(int argc, char** argv)
 {
     if (argc < 7)
     {
-        std::printf("usage: c08_replay C|S v0 lo0 md \"A2;A1;R1\" 0,0,1,1\n");
+        std::printf("usage: c08_replay C|S v0 lo0 md \"A2;A1;R1\" 0,0,1,1   (sliding: S5 T5 G3 Z0 M10:0)\n");
         return 2;
     }
     bool sliding = argv[1][0] == 'S';
@@ -78,7 +79,13 @@ int main(int argc, char** argv)
     {
         std::vector<Op> v;
         if (!p.empty() && p != "-")
-            for (auto& o : split(p, ',')) v.push_back(Op{o[0], std::atoi(o.c_str() + 1)});
+            for (auto& o : split(p, ','))
+            {
+                Op x{o[0], std::atoi(o.c_str() + 1)};
+                auto c = o.find(':');
+                if (c != std::string::npos) x.lo = std::atoi(o.c_str() + c + 1);
+                v.push_back(x);
+            }
         progs.push_back(v);
     }
     std::vector<int> want;
@@ -100,6 +107,7 @@ int main(int argc, char** argv)
     Sem sem(v0);
     pika::sliding_semaphore sl(md, lo0);
     std::atomic<bool> stop{false};
+    std::atomic<int> cur_md{md};    // max_difference in force (last set_max_difference issued)
     std::vector<std::string> got(T);
     {
         vctl::Controller ctl(T, 801, 816);
@@ -110,7 +118,7 @@ int main(int argc, char** argv)
                 for (Op const& o : progs[t])
                 {
                     if (stop.load()) break;
-                    bool r = true;
+                    bool r = true, zres = false;
                     switch (o.k)
                     {
                     case 'A': if (o.n == 1) sem.acquire(); else sem.acquire_n(o.n); break;
@@ -120,9 +128,23 @@ int main(int argc, char** argv)
                     case 'S': sl.wait(o.n); break;
                     case 'T': r = sl.try_wait(o.n); break;
                     case 'G': sl.signal(o.n); break;
+                    case 'Z':
+                    {
+                        // the public wrapper has no hook (one-line function): harness-side site, as for 808 above
+                        PIKA_VERIF_POINT(808, &sl);
+                        std::int64_t v = sl.signal_all();
+                        if (!stop.load()) got[t] += "[" + std::to_string(v) + "]";
+                        zres = true;
+                        break;
+                    }
+                    case 'M':
+                        PIKA_VERIF_POINT(808, &sl);
+                        cur_md.store(o.n);    // lock-step: nobody else runs until this thread parks, blocks or ends
+                        sl.set_max_difference(o.n, o.lo);
+                        break;
                     }
                     if (stop.load()) break;
-                    got[t].push_back(r ? '1' : '0');
+                    if (!zres) got[t].push_back(r ? '1' : '0');
                 }
                 ctl.end();
             });
@@ -153,7 +175,10 @@ int main(int argc, char** argv)
         for (auto& p : progs)
         {
             in << " ";
-            for (size_t i = 0; i < p.size(); ++i) in << (i ? "," : "") << p[i].k << p[i].n;
+            for (size_t i = 0; i < p.size(); ++i) {
+                    in << (i ? "," : "") << p[i].k << p[i].n;
+                    if (p[i].k == 'M') in << ":" << p[i].lo;
+                }
             if (p.empty()) in << "-";
         }
         in << " ";
@@ -180,7 +205,7 @@ int main(int argc, char** argv)
         {
             fin = -100;
             for (int u = 40; u >= -10; --u)
-                if (sl.try_wait(u)) { fin = u - md; break; }
+                if (sl.try_wait(u)) { fin = u - cur_md.load(); break; }
         }
         out << "OUT LS 0 sites=";
         for (size_t i = 0; i < sites.size(); ++i) out << (i ? "," : "") << sites[i];
